@@ -27,7 +27,7 @@ import (
 )
 
 type Op struct {
-	K    string `json:"k"` // append save
+	K    string `json:"k"` // append save savec appendc  (the c variants use an already-cancelled context: they must fail and write nothing)
 	Size int    `json:"size,omitempty"` // append: padding bytes
 	Sub  string `json:"sub,omitempty"`  // save: subscription id
 }
@@ -90,6 +90,23 @@ func ChildMain(scriptPath string) {
 				os.Exit(3)
 			}
 			os.Stdout.WriteString(fmt.Sprintf("ACK %d save [%s]\n", i, last))
+		case "savec":
+			cctx, cancel := context.WithCancel(ctx)
+			cancel()
+			if err := st.SaveOffset(cctx, op.Sub, last); err == nil {
+				fmt.Println("CHILDERR SaveOffset with a cancelled context returned nil")
+				os.Exit(3)
+			}
+			os.Stdout.WriteString(fmt.Sprintf("ACK %d savec [%s]\n", i, last))
+		case "appendc":
+			cctx, cancel := context.WithCancel(ctx)
+			cancel()
+			data, _ := json.Marshal(map[string]any{"id": -(sc.FirstID + i)})
+			if _, err := st.Append(cctx, &eventbus.Event{Type: "c14", Data: data, Timestamp: time.Unix(1, 0)}); err == nil {
+				fmt.Println("CHILDERR Append with a cancelled context returned nil")
+				os.Exit(3)
+			}
+			os.Stdout.WriteString(fmt.Sprintf("ACK %d appendc []\n", i))
 		}
 	}
 	if sc.CloseAt >= 0 {
@@ -213,7 +230,7 @@ func Run(c *Case) *vkit.Outcome {
 		// the operation in flight when the child died (may or may not have landed)
 		var inflight *Op
 		inflightID := 0
-		if killed && len(acks) < len(cy.Ops) {
+		if killed && len(acks) < len(cy.Ops) && cy.Ops[len(acks)].K != "savec" && cy.Ops[len(acks)].K != "appendc" {
 			inflight = &cy.Ops[len(acks)]
 			inflightID = nextID + len(acks)
 		}
